@@ -1,20 +1,27 @@
 import MoneroModel.Drv.Util
 import MoneroModel.Drv.C20
 import MoneroModel.Model.Address
+import MoneroModel.Model.Keys
 import MoneroModel.Spec.Address
 import MoneroModel.Ref.Base58
 import MoneroModel.Ref.Keccak
 import MoneroModel.Ref.Ed25519
 open Monero
-/-! Driver step of C12. Model side: `Monero.Address.*` with `H := Keccak.keccak256` and `validKey :=` the Ed25519
-decompress–recompress check (`PublicKey::from_slice`). Spec side: `Spec.Address.*` (layout by the book, `Spec.tag`,
+/-! Driver step of C12. Model side: `Monero.Address.*` with `H := Keccak.keccak256` and `validKey := Keys.publicAccept`, the
+model of `PublicKey::from_slice` (dalek decompress – recompress – compare). Spec side: `Spec.Address.*` (layout by the book, `Spec.tag`,
 `Base58` reference) with `validKey :=` "RFC 8032 decoding succeeds". Text travels as the hex of its UTF-8 bytes. -/
 namespace Drv
 namespace C12
 def H : Bytes → Bytes := Keccak.keccak256
-/-- `PublicKey::from_slice`: length 32, decompress, compress again, compare the bytes -/
-def validKey (k : Bytes) : Bool :=
+/-- the key test formerly run on the model side: the RFC 8032 reference decoder, then recompress and compare (kept for
+reference; it shares its decoder with `validKeySpec`) -/
+def validKeyRfc (k : Bytes) : Bool :=
   k.length == 32 && match Ed.decompress (Ed.leNat k) with | none => false | some P => Ed.compress P == Ed.leNat k
+/-- `PublicKey::from_slice` as the library computes it (Model/Keys.lean, the model of C13): length 32, dalek's PERMISSIVE
+decompress (y taken modulo p, sign applied by negation), compress again, compare the bytes. The spec side below uses the
+strict RFC 8032 decoder, so relations B and C run two different predicates; `C13_public_eq_reference` and
+`C12_parse_is_monero_ed25519` prove them equal. -/
+def validKey (k : Bytes) : Bool := Keys.publicAccept k
 /-- by the book: the 32 bytes are the RFC 8032 encoding of a curve point -/
 def validKeySpec (k : Bytes) : Bool := (Ed.decodePt k).isSome
 
